@@ -375,40 +375,10 @@ func checkPackUnpackAfterHistory(rep *Reporter, c *hcase) {
 	})
 }
 
-var fieldWriters = []string{"setvalue", "setbytes", "unpack", "json", "marshal-field", "marshal-string", "marshal-bytes", "marshal-zero"}
+var fieldWriters = impl.FieldWriters
 
-// writeThrough puts the value of src into f through the named writer; false = not applicable / refused
 func writeThrough(f, src field.Field, v *T, how string) bool {
-	switch how {
-	case "setvalue":
-		return impl.SetValue(f, v)
-	case "setbytes":
-		b, err := src.Bytes()
-		return err == nil && f.SetBytes(b) == nil
-	case "unpack":
-		w, err := src.Pack()
-		if err != nil {
-			return false
-		}
-		_, err = f.Unpack(w)
-		return err == nil
-	case "json":
-		js, err := json.Marshal(src)
-		return err == nil && json.Unmarshal(js, f) == nil
-	case "marshal-field":
-		return f.Marshal(src) == nil
-	case "marshal-string":
-		s, err := src.String()
-		return err == nil && f.Marshal(s) == nil
-	case "marshal-bytes":
-		b, err := src.Bytes()
-		return err == nil && f.Marshal(b) == nil
-	case "marshal-zero":
-		// a zero value: whatever the field makes of it, its content afterwards is what it reports
-		var zs string
-		return f.Marshal(zs) == nil || f.Marshal(&zs) == nil
-	}
-	return false
+	return impl.WriteThrough(f, src, v, how)
 }
 
 func checkOverwriteHistory(rep *Reporter, r *gen.Rng, specT, v1, v2 *T) {
